@@ -8,6 +8,17 @@ COUNTER = {"n": 0}
 _REPO = os.path.realpath(os.environ.get("VF_REPO", "/repo"))
 _MT = os.path.join(_REPO, "monkeytype") + os.sep
 ARMED = set()
+EVENTS = []
+
+
+class Fin:
+    """A local whose release time is observable: tracing must not make the locals of a call outlive it."""
+
+    def __init__(self, label):
+        self.label = label
+
+    def __del__(self):
+        EVENTS.append("fin:" + self.label)
 
 
 def _site():
